@@ -56,36 +56,136 @@ fn scoped(roots: &Roots, doc: &yrs::Doc) -> String {
     format!("t={} m={} x={}", dump_text(&roots.t, &txn), dump_map(&roots.m, &txn), dump_xml(&yrs::XmlOut::Fragment(roots.x.clone()), &txn))
 }
 
-/// Scoped content without map components: sequences only (text units, XML children), no ids.
-fn seq_only<T: ReadTxn>(o: &yrs::Out, txn: &T) -> String {
+/// Scoped content as an id-free tree: sequences as arrays, map components (map entries, XML attributes) as objects.
+fn tree<T: ReadTxn>(o: &yrs::Out, txn: &T) -> serde_json::Value {
+    use serde_json::{json, Value};
     use yrs::types::text::YChange;
-    use yrs::Text;
-    let text = |t: &yrs::TextRef| -> String {
-        let mut s = String::from("T[");
+    use yrs::{Map, Text, Xml};
+    let text = |t: &yrs::TextRef| -> Value {
+        let mut v = vec![];
         for c in t.diff(txn, YChange::identity) {
+            let at = attrs_str(&attrs_map(&c.attributes));
             match &c.insert {
-                yrs::Out::Any(yrs::Any::String(x)) => s.push_str(x),
-                other => s.push_str(&format!("({})", seq_only(other, txn))),
+                // one element per character, so that a permutation of the elements is a permutation of the array
+                yrs::Out::Any(yrs::Any::String(x)) => {
+                    for ch in x.chars() {
+                        v.push(json!([ch.to_string(), at]));
+                    }
+                }
+                other => v.push(json!([{ "embed": tree(other, txn) }, at])),
             }
-            s.push_str(&attrs_str(&attrs_map(&c.attributes)));
-            s.push('|');
         }
-        s.push(']');
-        s
+        Value::Array(v)
     };
     match o {
-        yrs::Out::Any(a) => any_str(a),
-        yrs::Out::YText(t) => text(t),
+        yrs::Out::Any(a) => json!(any_str(a)),
+        yrs::Out::YText(t) => json!({ "#text": text(t) }),
         yrs::Out::YXmlText(t) => {
             let tr: &yrs::TextRef = t.as_ref();
-            text(tr)
+            let attrs: serde_json::Map<String, Value> = t.attributes(txn).map(|(k, v)| (k.to_string(), tree(&v, txn))).collect();
+            json!({ "#xmltext": text(tr), "#attrs": Value::Object(attrs) })
         }
-        yrs::Out::YArray(a) => format!("A[{}]", a.iter(txn).map(|x| seq_only(&x, txn)).collect::<Vec<_>>().join(",")),
-        yrs::Out::YMap(_) => "M".into(),
-        yrs::Out::YXmlElement(e) => format!("<{}>[{}]", e.tag(), e.children(txn).map(|c| seq_only(&xml_out(&c), txn)).collect::<Vec<_>>().join(",")),
-        yrs::Out::YXmlFragment(e) => format!("F[{}]", e.children(txn).map(|c| seq_only(&xml_out(&c), txn)).collect::<Vec<_>>().join(",")),
-        other => shallow(other),
+        yrs::Out::YArray(a) => Value::Array(a.iter(txn).map(|x| tree(&x, txn)).collect()),
+        yrs::Out::YMap(m) => Value::Object(m.iter(txn).map(|(k, v)| (k.to_string(), tree(&v, txn))).collect()),
+        yrs::Out::YXmlElement(e) => {
+            let attrs: serde_json::Map<String, Value> = e.attributes(txn).map(|(k, v)| (k.to_string(), tree(&v, txn))).collect();
+            json!({ "#tag": e.tag().to_string(), "#attrs": Value::Object(attrs), "#children": Value::Array(e.children(txn).map(|c| tree(&xml_out(&c), txn)).collect()) })
+        }
+        yrs::Out::YXmlFragment(e) => Value::Array(e.children(txn).map(|c| tree(&xml_out(&c), txn)).collect()),
+        other => json!(shallow(other)),
     }
+}
+
+/// True if the two trees have the same shape and every sequence holds the same elements, in another order somewhere.
+fn only_reordered(got: &serde_json::Value, want: &serde_json::Value) -> bool {
+    fn walk(got: &serde_json::Value, want: &serde_json::Value, reordered: &mut u32) -> bool {
+        use serde_json::Value;
+        match (got, want) {
+            (Value::Object(g), Value::Object(w)) => g.len() == w.len() && g.iter().all(|(k, gv)| w.get(k).map_or(false, |wv| walk(gv, wv, reordered))),
+            (Value::Array(g), Value::Array(w)) => {
+                if g == w {
+                    return true;
+                }
+                // same positions, differences further down (an array of containers)
+                if g.len() == w.len() {
+                    let mut inner = 0;
+                    if g.iter().zip(w.iter()).all(|(x, y)| walk(x, y, &mut inner)) {
+                        *reordered += inner;
+                        return true;
+                    }
+                }
+                let mut a: Vec<String> = g.iter().map(|x| x.to_string()).collect();
+                let mut b: Vec<String> = w.iter().map(|x| x.to_string()).collect();
+                a.sort();
+                b.sort();
+                if a == b {
+                    *reordered += 1;
+                    true
+                } else {
+                    false
+                }
+            }
+            (a, b) => a == b,
+        }
+    }
+    let mut reordered = 0;
+    walk(got, want, &mut reordered) && reordered > 0
+}
+
+/// The tree with the formatting attributes of text elements left out.
+fn strip_attrs(v: &serde_json::Value) -> serde_json::Value {
+    use serde_json::Value;
+    match v {
+        Value::Object(o) => Value::Object(
+            o.iter()
+                .map(|(k, x)| {
+                    if k == "#text" || k == "#xmltext" {
+                        let elems = x.as_array().map(|a| a.iter().map(|e| e.get(0).map(strip_attrs).unwrap_or(Value::Null)).collect()).unwrap_or_default();
+                        (k.clone(), Value::Array(elems))
+                    } else {
+                        (k.clone(), strip_attrs(x))
+                    }
+                })
+                .collect(),
+        ),
+        Value::Array(a) => Value::Array(a.iter().map(strip_attrs).collect()),
+        other => other.clone(),
+    }
+}
+
+/// True if `want` can be obtained from `got` by adding whole map components (map entries / XML attributes) only: every
+/// sequence and every value present in both is equal, and at least one key of `want` is absent from `got`.
+fn only_missing_keys(got: &serde_json::Value, want: &serde_json::Value) -> bool {
+    fn walk(got: &serde_json::Value, want: &serde_json::Value, missing: &mut u32) -> bool {
+        use serde_json::Value;
+        match (got, want) {
+            (Value::Object(g), Value::Object(w)) => {
+                for (k, gv) in g.iter() {
+                    match w.get(k) {
+                        None => return false,
+                        Some(wv) => {
+                            if !walk(gv, wv, missing) {
+                                return false;
+                            }
+                        }
+                    }
+                }
+                for k in w.keys() {
+                    if !g.contains_key(k) {
+                        if k.starts_with('#') {
+                            return false;
+                        }
+                        *missing += 1;
+                    }
+                }
+                true
+            }
+            (Value::Array(g), Value::Array(w)) => g.len() == w.len() && g.iter().zip(w.iter()).all(|(a, b)| walk(a, b, missing)),
+            (a, b) => a == b,
+        }
+    }
+    let mut missing = 0;
+    walk(got, want, &mut missing) && missing > 0
 }
 
 fn xml_out(x: &yrs::XmlOut) -> yrs::Out {
@@ -96,9 +196,15 @@ fn xml_out(x: &yrs::XmlOut) -> yrs::Out {
     }
 }
 
+/// The scoped types as an id-free tree (JSON text), used to classify a failed inverse check.
 fn scoped_seq(roots: &Roots, doc: &yrs::Doc) -> String {
     let txn = doc.transact();
-    format!("{} {}", seq_only(&yrs::Out::YText(roots.t.clone()), &txn), seq_only(&yrs::Out::YXmlFragment(roots.x.clone()), &txn))
+    serde_json::json!({
+        "t": tree(&yrs::Out::YText(roots.t.clone()), &txn),
+        "m": tree(&yrs::Out::YMap(roots.m.clone()), &txn),
+        "x": tree(&yrs::Out::YXmlFragment(roots.x.clone()), &txn),
+    })
+    .to_string()
 }
 
 /// True if some map chain (map entries / XML attributes of a live scoped type) ends in a deleted, not redone entry that has
@@ -120,10 +226,17 @@ fn shadowed_chain(roots: &Roots, doc: &yrs::Doc) -> bool {
     false
 }
 
-/// True if the store holds a nested shared type that undo/redo has re-created (an item with type content and a `redone` link).
+/// True if the store holds a nested shared type that undo/redo has re-created (an item with type content and a `redone`
+/// link), or an element whose redone copy has itself been redone (several generations of copies): the states in which the
+/// neighbour search of `ItemPtr::redo` has to trace `redone` links.
 fn restored_container(doc: &yrs::Doc) -> bool {
     let txn = doc.transact();
-    yrs::verif::store_blocks(&txn).iter().any(|b| b.kind == 0 && b.content == 7 && b.redone.is_some())
+    let blocks = yrs::verif::store_blocks(&txn);
+    if blocks.iter().any(|b| b.kind == 0 && b.content == 7 && b.redone.is_some()) {
+        return true;
+    }
+    let redone_at = |id: &yrs::ID| blocks.iter().find(|b| b.kind == 0 && b.id.client == id.client && b.id.clock <= id.clock && id.clock < b.id.clock + b.len).map_or(false, |b| b.redone.is_some());
+    blocks.iter().any(|b| b.kind == 0 && b.redone.as_ref().map_or(false, |r| redone_at(r)))
 }
 
 fn unscoped(roots: &Roots, doc: &yrs::Doc) -> String {
@@ -395,7 +508,16 @@ pub fn run_undo(prog: &UProgram) -> UResult {
                                 eprintln!("   {}:{}+{} k{} c{} del{} keep{} o{:?} r{:?} p{:?} redone{:?} {}", b.id.client, b.id.clock, b.len, b.kind, b.content, b.deleted, b.keep, b.origin.map(|i| (i.client.get(), i.clock)), b.right_origin.map(|i| (i.client.get(), i.clock)), b.parent, b.redone.map(|i| (i.client.get(), i.clock)), b.text);
                             }
                         }
-                        let only_maps = &scoped_seq(&roots, &doc) == want_seq;
+                        // the map-entry sub-populations: the only difference is that map components (entries / attributes) of the
+                        // expected content are absent - every sequence and every value present on both sides is equal
+                        if crate::util::debug() {
+                            eprintln!("TREE got  {}\nTREE want {}", scoped_seq(&roots, &doc), want_seq);
+                        }
+                        let only_maps = {
+                            let got: serde_json::Value = serde_json::from_str(&scoped_seq(&roots, &doc)).unwrap_or_default();
+                            let want: serde_json::Value = serde_json::from_str(want_seq).unwrap_or_default();
+                            only_missing_keys(&got, &want)
+                        };
                         let sub = if only_maps && redo_cleared_nonempty {
                             ":map-entry-after-discarded-redo"
                         } else if only_maps && shadowed_chain(&roots, &doc) {
@@ -403,7 +525,15 @@ pub fn run_undo(prog: &UProgram) -> UResult {
                             // right on the key's chain that this undo step did not delete itself (a later tracked step wrote
                             // and removed the key again); redo then refuses the entry, as Yjs does
                             ":map-entry-shadowed-by-newer-deleted-entry"
-                        } else if restored_container(&doc) {
+                        } else if restored_container(&doc) && {
+                            let got: serde_json::Value = serde_json::from_str(&scoped_seq(&roots, &doc)).unwrap_or_default();
+                            let want: serde_json::Value = serde_json::from_str(want_seq).unwrap_or_default();
+                            // observed on the unchanged tree: after an undo the elements are all there, in another order; after
+                            // a redo an element of a re-created container may also be missing. An element that an *undo* fails
+                            // to bring back is not part of this finding and stays reportable.
+                            let (g2, w2) = (strip_attrs(&got), strip_attrs(&want));
+                            only_reordered(&got, &want) || g2 == w2 || only_reordered(&g2, &w2) || !is_undo
+                        } {
                             // third sub-population: a nested type was removed and brought back by undo/redo (a re-created copy),
                             // and steps captured inside the old or the new copy are undone / redone afterwards
                             ":content-of-restored-container"
